@@ -167,6 +167,20 @@ fn canonical_small(r: &mut Rng, kind: &str) -> Vec<Tok> {
     f
 }
 
+/// grow one dynamic field so that the whole encoding is exactly 512, 1024, 1536 or 2048 bytes long (or one word short of / beyond that)
+fn stretch_to_chunk(r: &mut Rng, f: &mut Vec<Tok>, enc_len: usize) {
+    let dynamic: Vec<usize> = f.iter().enumerate().filter(|(_, t)| matches!(t, Tok::B(_) | Tok::S(_))).map(|(i, _)| i).collect();
+    if dynamic.is_empty() || enc_len == 0 { return; }
+    let i = *r.pick(&dynamic);
+    let mut target = 512 * (1 + r.below(4) as usize); while target < enc_len { target += 512; }
+    let target = match r.below(6) { 0 => target + 32, 1 => target.saturating_sub(32).max(enc_len), _ => target };
+    if let Tok::B(b) | Tok::S(b) = &mut f[i] {
+        let padded = (b.len() + 31) / 32 * 32; let np = padded + (target - enc_len);
+        let nl = if np == 0 { 0 } else { np - r.below(32) as usize };
+        while b.len() < nl { b.push(r.next() as u8); } b.truncate(nl.max(0));
+    }
+}
+
 fn word_u64(v: u64) -> Vec<u8> { let mut w = vec![0u8; 24]; w.extend_from_slice(&v.to_be_bytes()); w }
 
 // mutate a canonical encoding: returns (label, bytes)
@@ -242,7 +256,8 @@ pub fn run(seed: u64, n: usize) {
     for i in 0..n {
         let v = match r.below(10) {
             0 | 1 | 2 => { // struct encode
-                let kind = *r.pick(&KINDS); let f = gen_fields(&mut r, kind);
+                let kind = *r.pick(&KINDS); let mut f = gen_fields(&mut r, kind);
+                if r.chance(1, 5) { let l = { let (k2, f2) = (kind.to_string(), f.clone()); isolated(move || enc_struct(&k2, &f2)).map(|o| o.len()).unwrap_or(0) }; stretch_to_chunk(&mut r, &mut f, l); }
                 let out = { let (k2, f2) = (kind.to_string(), f.clone()); isolated(move || enc_struct(&k2, &f2)) };
                 json!({"i": i, "k": "enc", "ty": kind, "toks": toks_json(&f), "out": out.map(|o| hx(&o))}) }
             3 => { // raw encode of an arbitrary token list
@@ -250,8 +265,9 @@ pub fn run(seed: u64, n: usize) {
                 let out = { let f2 = f.clone(); isolated(move || enc_raw(&f2)) };
                 json!({"i": i, "k": "enc", "ty": "raw", "toks": toks_json(&f), "out": out.map(|o| hx(&o))}) }
             4 | 5 | 6 | 7 => { // struct decode of a (mutated) canonical encoding
-                let kind = *r.pick(&KINDS); let f = canonical_small(&mut r, kind);
+                let kind = *r.pick(&KINDS); let mut f = canonical_small(&mut r, kind);
                 let enc = { let (k2, f2) = (kind.to_string(), f.clone()); isolated(move || enc_struct(&k2, &f2)).unwrap_or_default() };
+                let enc = if r.chance(1, 6) { stretch_to_chunk(&mut r, &mut f, enc.len()); let (k2, f2) = (kind.to_string(), f.clone()); isolated(move || enc_struct(&k2, &f2)).unwrap_or_default() } else { enc };
                 let (label, data) = mutate(&mut r, &enc, kind_shape(kind).len());
                 let out = { let (k2, d2) = (kind.to_string(), data.clone()); isolated(move || dec_struct(&k2, &d2)) };
                 json!({"i": i, "k": "dec", "ty": kind, "mut": label, "data": hx(&data), "out": out.map(|o| toks_json(&o))}) }
